@@ -50,6 +50,34 @@ def kwargs_from_options(o, for_run):
     return kw
 
 
+def needs_low_level(o):
+    return o.get('flags') is not None or o.get('preset') is not None
+
+
+def low_level_assemble(files, out, o):
+    """-f / --lzma_preset have no flipjump_quickstart.assemble keyword: the API user builds the Writer himself
+    (version: the one asked for, else the documented default when an output file is named: 3; width: 64)"""
+    from flipjump import flipjump_quickstart as q     # its Writer / assembler attributes are the (possibly recorded) ones
+    from flipjump.fjm.fjm_consts import FJMVersion
+    from flipjump.utils.functions import get_file_tuples
+    wkw = {}
+    if o.get('flags') is not None:
+        wkw['flags'] = o['flags']
+    if o.get('preset') is not None:
+        wkw['lzma_preset'] = o['preset']
+    width = o['width'] if o.get('width') is not None else 64
+    writer = q.Writer(Path(out), width, FJMVersion(o['version'] if o.get('version') is not None else 3), **wkw)
+    kw = {'warning_as_errors': bool(o.get('werror'))}
+    if o.get('debug'):
+        kw['debugging_file_path'] = Path(o['debug'])
+    if o.get('silent'):
+        kw['print_time'] = False
+    if o.get('max_depth') is not None:
+        kw['max_recursion_depth'] = o['max_depth']
+    q.assembler.assemble(get_file_tuples([str(Path(f).absolute()) for f in files], no_stl=bool(o.get('no_stl'))),
+                         width, writer, **kw)
+
+
 def api_route(case):
     from flipjump import flipjump_quickstart as q
     from flipjump.utils.classes import TerminationCause  # noqa: F401
@@ -63,7 +91,10 @@ def api_route(case):
                 kw['print_termination'] = False
             t = q.assemble_and_run([Path(f) for f in case['files']], **kw)
         else:
-            q.assemble([Path(f) for f in case['files']], Path(o['outfile']), **kwargs_from_options(o, False))
+            if needs_low_level(o):
+                low_level_assemble(case['files'], o['outfile'], o)
+            else:
+                q.assemble([Path(f) for f in case['files']], Path(o['outfile']), **kwargs_from_options(o, False))
             t = q.run(Path(o['outfile']), **kwargs_from_options(o, True))
         res['termination'] = str(t.termination_cause)
         res['ops'] = t.op_counter
